@@ -33,9 +33,13 @@ use syn::visit::Visit;
 use syn::visit_mut::VisitMut;
 use syn::{Expr, Pat, Stmt};
 
+#[path = "c10_vtable.rs"]
+mod c10_vtable;
+
 pub const TARGETS: &[Target] = &[
     ("c10builtins", "C10Builtins", c10builtins as super::Gen),
     ("c10locks", "C10Locks", c10locks as super::Gen),
+    ("c10vtable", "C10VTable", c10_vtable::c10vtable as super::Gen),
 ];
 
 type R = Result<String, String>;
